@@ -216,6 +216,12 @@ pub async fn worker(
 					errors.send(e).await?;
 				}
 			} else {
+				// this registration supersedes one of the same path with the other mode, which
+				// is still on record here if its unwatch failed
+				pathset.remove(&WatchedPath {
+					path: path.path.clone(),
+					recursive: !path.recursive,
+				});
 				pathset.insert(path);
 			}
 		}
